@@ -211,13 +211,13 @@ class ProductErrorNode(ErrorNode):
             print(f"{indent}While parsing field '{_show(field)}':\n{indent}  ", end="", file=file)
             child.print_error(f"{indent}  ", file=file)
 
-        for field in self.missing:
-            if not isinstance(field, str):
-                field = '/'.join(field)
+        # (sets: put them in an order which doesn't change from one run of the program to the next)
+        missing = sorted(field if isinstance(field, str) else '/'.join(field) for field in self.missing)
+        for field in missing:
             print(f"{indent}  Missing required field '{field}'", file=file)
 
-        for field in self.extra:
-            print(f"{indent}  Unexpected field '{_show(field)}'", file=file)
+        for field in sorted(map(_show, self.extra)):
+            print(f"{indent}  Unexpected field '{field}'", file=file)
 
 
 @dataclasses.dataclass
